@@ -31,6 +31,45 @@ type FeeQuote struct {
 	Data      FeeUnit `json:"data"`
 	StdRelay  FeeUnit `json:"std_relay"`
 	DataRelay FeeUnit `json:"data_relay"`
+	// StdTag / DataTag say what the informational FeeType field of the *bt.Fee registered as
+	// the standard / data fee carries (FeeTagKey, FeeTagEmpty, FeeTagOther). Only
+	// FeeQuoteToLibTagged and FeeLibFee look at them: a quote answers by the key a fee was
+	// registered under, whatever the fee object says about itself.
+	StdTag  int `json:"std_tag,omitempty"`
+	DataTag int `json:"data_tag,omitempty"`
+}
+
+// Values of FeeQuote.StdTag / DataTag.
+const (
+	FeeTagKey   = 0 // Fee.FeeType equals the key the fee is registered under
+	FeeTagEmpty = 1 // Fee.FeeType is empty
+	FeeTagOther = 2 // Fee.FeeType names the other fee type (a copied and edited fee object)
+)
+
+// FeeLibFee builds the *bt.Fee to be registered under key with the given mining / relay rate;
+// tag chooses the content of its informational FeeType field.
+func FeeLibFee(key bt.FeeType, mining, relay FeeUnit, tag int) *bt.Fee {
+	f := &bt.Fee{FeeType: key,
+		MiningFee: bt.FeeUnit{Satoshis: mining.Sat, Bytes: mining.Bytes},
+		RelayFee:  bt.FeeUnit{Satoshis: relay.Sat, Bytes: relay.Bytes}}
+	switch tag {
+	case FeeTagEmpty:
+		f.FeeType = ""
+	case FeeTagOther:
+		f.FeeType = bt.FeeTypeData
+		if key == bt.FeeTypeData {
+			f.FeeType = bt.FeeTypeStandard
+		}
+	}
+	return f
+}
+
+// FeeQuoteToLibTagged is FeeQuoteToLib honouring q.StdTag / q.DataTag.
+func FeeQuoteToLibTagged(q FeeQuote) *bt.FeeQuote {
+	fq := bt.NewFeeQuote()
+	fq.AddQuote(bt.FeeTypeStandard, FeeLibFee(bt.FeeTypeStandard, q.Std, q.StdRelay, q.StdTag))
+	fq.AddQuote(bt.FeeTypeData, FeeLibFee(bt.FeeTypeData, q.Data, q.DataRelay, q.DataTag))
+	return fq
 }
 
 // FeeQuoteToLib builds the library's quote object from the model.
